@@ -9,7 +9,7 @@ for i in $(seq 1 $lanes); do
   ( while read d; do
       ids=$(/venv/bin/python -c "import json;print(' '.join(json.load(open('$d/meta.json'))['caught_by'][:1]))")
       out=$(SEED_TREE=/tmp/seedlane_$i VERIF_NPROC=6 tools/seed_eval.sh $PWD/$d/patch.diff $ids 2>&1)
-      if echo "$out" | grep -q "^VIOLATION"; then echo "CAUGHT $d by $ids"; else echo "MISSED $d ($ids)"; echo "$out" | tail -2; fi
+      if echo "$out" | grep -q "^VIOLATION"; then echo "CAUGHT $d by $ids :: $(echo "$out" | grep -v KNOWN | grep "key=" | head -1 | cut -c1-150)"; else echo "MISSED $d ($ids)"; echo "$out" | tail -2; fi
     done < /tmp/seedlane_list_$i ) &
 done
 wait
